@@ -491,7 +491,6 @@ def mode_stress(data):
     own = set()
 
     def spin():
-        own.add(sys._getframe(0).f_code)
         n = 0
         while not stop.is_set():
             with CM(n):
@@ -499,9 +498,9 @@ def mode_stress(data):
             n += helper(n)
 
     def helper(n):
-        own.add(sys._getframe(0).f_code)
         with CM(n):
             return 1
+    own.update([spin.__code__, helper.__code__, CM.__init__.__code__, CM.__enter__.__code__, CM.__exit__.__code__])
     t = threading.Thread(target=spin, daemon=True)
     t.start()
     out = {"extractions": 0, "bad": [], "with_error": 0, "nonempty": 0}
@@ -522,10 +521,45 @@ def mode_stress(data):
             if st.frames:
                 out["nonempty"] += 1
             for f in st.frames:
-                nm = f.funcname
-                if nm not in ("_bootstrap", "_bootstrap_inner", "run", "spin", "helper", "__init__", "__enter__", "__exit__", "is_set"):
-                    out["bad"].append("frame %s does not belong to the target thread" % nm)
+                # membership by code, not by name: the target runs spin / helper / CM methods and, while it starts or
+                # polls the Event, functions of threading.py (the extracting thread runs none of those during extract)
+                co = f.pyframe.f_code
+                if co not in own and co.co_filename != threading.__file__:
+                    out["bad"].append("frame %s (%s) does not belong to the target thread" % (f.funcname, co.co_filename))
                     break
+        # churn: threads that start and finish while they are being extracted
+        def short():
+            n = 0
+            for _ in range(200):
+                with CM(n):
+                    n += helper(n)
+        own.add(short.__code__)
+        out["churn_threads"] = 0
+        deadline = time.time() + seconds / 3.0
+        while time.time() < deadline and not out["bad"]:
+            c = threading.Thread(target=short, daemon=True)
+            c.start()
+            out["churn_threads"] += 1
+            while True:
+                alive = c.is_alive()
+                try:
+                    with warnings.catch_warnings():
+                        warnings.simplefilter("ignore")
+                        st = stackscope.extract(c)
+                except BaseException as ex:
+                    out["bad"].append("churn: extract raised %r" % (ex,))
+                    break
+                out["extractions"] += 1
+                for f in st.frames:
+                    co = f.pyframe.f_code
+                    if co not in own and co.co_filename != threading.__file__:
+                        out["bad"].append("churn: frame %s (%s) does not belong to the target thread" % (f.funcname, co.co_filename))
+                        break
+                if not alive:
+                    if st.frames:
+                        out["bad"].append("churn: a finished thread has frames %s" % [f.funcname for f in st.frames])
+                    break
+            c.join(5)
     finally:
         stop.set()
         t.join(5)
